@@ -12,6 +12,7 @@ func init() { register("C34", c34) }
 func c34(p *an.Prog, r *an.R, tier string) {
 	r.Explanation = "C34 (structural clause): validation precedes mutation. In runSync the discovery of repositories (which reports duplicate names and duplicate sources as an error) and the reading of the inventory run, and their errors are tested, on every path before the calls that can remove or write shards (applyRemovals, indexRepositories); in removeRepositories the selection of records (ambiguous / not found errors) precedes applyRemovals the same way. Does NOT decide convergence (exactly one up-to-date repository per discovered repository and nothing else)."
 	r.Rule("C34.R1", "every path to applyRemovals/indexRepositories passes the validation call, and the validation's error is tested (== nil edge) before them")
+	r.Rule("C34.R2", "runSync: applyRemovals is not reachable from indexRepositories without the inventory being read and the prune plan being computed again (the plan identifies shards by file path; indexing writes files of the same names)")
 	for _, spec := range []struct {
 		fn       string
 		validate []string
@@ -84,5 +85,31 @@ func c34(p *an.Prog, r *an.R, tier string) {
 			}
 		}
 		errCheckedBefore(r, "C34.R1", d, g, fname, "mutation", targets, "the index is changed although validation (duplicate names, ambiguous selection) failed")
+		// R2: the prune plan names shard files of the inventory it was computed from; indexing rewrites files of
+		// the same names, so the plan must be applied before indexing runs
+		applyF, indexF := p.Func(lsync, "applyRemovals"), p.Func(lsync, "indexRepositories")
+		if spec.fn == "runSync" && applyF != nil && indexF != nil {
+			applies := g.Locs(func(n ast.Node) bool { return len(an.CallsTo(info, n, false, applyF)) > 0 })
+			indexes := g.Locs(func(n ast.Node) bool { return len(an.CallsTo(info, n, false, indexF)) > 0 })
+			if len(applies) > 0 && len(indexes) > 0 {
+				stale := false
+				pos := g.Node(applies[0]).Pos()
+				for _, il := range indexes {
+					for _, al := range applies {
+						// a deferred applyRemovals runs when the function returns, i.e. after an indexing that follows the defer
+						if _, isDefer := g.Node(al).(*ast.DeferStmt); isDefer && g.Reach(al, true, &an.Search{Target: func(l an.Loc) bool { return l == il }}) {
+							stale = true
+							pos = g.Node(al).Pos()
+						}
+						if g.Reach(il, true, &an.Search{Target: func(l an.Loc) bool { return l == al }, Cut: g.HasCallTo(p.Func(lsync, "readInventory"), p.Func(lsync, "planPrune"))}) {
+							stale = true
+							pos = g.Node(al).Pos()
+						}
+					}
+				}
+				r.Check(!stale, "C34.R2", fname+"/prune-plan-applied-before-indexing", pos, "the removals planned from the inventory are applied before indexing rewrites shard files",
+					"applyRemovals can run after indexRepositories with a plan computed from the inventory read before indexing: the plan names shard files by path, indexing has rewritten (or kept as up to date) a file of the same name for the discovered repository, and the stale plan deletes it - sync reports success while the repository has no shard")
+			}
+		}
 	}
 }
